@@ -75,6 +75,8 @@ def run(ctx):
             ctx.unknown('T27', eq.fq, 'no isinstance(other, %s) branch found' % cname, eq.loc)
         else:
             onepass.pair_view(ctx, eq, branch[0].body, ['self', eq.params[1]], 'comparison of two %ss' % cname)
+        onepass.sources_consumed(ctx, prog.func(cls + '.update'), ['E', 'F'])
+        onepass.sources_consumed(ctx, prog.func(cls + '.update_extend'), ['E', 'F'])
         # T19p: a bulk mutator uses every source it accepts (a parameter that is never read is a silently dropped source)
         for mname in ('update', 'update_extend', 'addlist', 'fromkeys', '__init__'):
             mf = prog.func(cls + '.' + mname)
